@@ -550,6 +550,68 @@ def rw_no_panic(text, log):
     return text
 
 
+def rw_matches(text, log):
+    """R25 (automatic): `matches!(E, P)` / `matches!(E, P if G)` -> `(match E { P => true, _ => false })` (std's definition; the arguments of a
+    std macro are opaque to Verus, so a call taking the world token inside it could not be elaborated)."""
+    n = 0
+    while True:
+        st = rtok.sig(rtok.lex(text))
+        hit = None
+        for i in range(len(st) - 2):
+            if st[i][0] == 'ident' and st[i][1] == 'matches' and st[i + 1][1] == '!' and st[i + 2][1] == '(' and st[i - 1][1] not in ('.', '::'):
+                hit = i
+                break
+        if hit is None:
+            break
+        i = hit
+        close = rtok.match_close(st, i + 2)
+        parts = _split_args(st, i + 2, close)
+        if len(parts) < 2:
+            break
+        scrut = text[st[parts[0][0]][2]:st[parts[0][1] - 1][3]]
+        pat = text[st[parts[1][0]][2]:st[parts[-1][1] - 1][3]]
+        text = _replace_spans(text, [(st[i][2], st[close][3], '(match %s { %s => true, _ => false })' % (scrut, pat))])
+        n += 1
+    if n:
+        log.append('R25 %d `matches!(E, P)` -> `match E { P => true, _ => false }`' % n)
+    return text
+
+
+def rw_result_combinators(text, eff, log):
+    """R26 (automatic): `X.or_else(|e| B)` -> `(match X { Ok(v__) => Ok(v__), Err(e) => B })` and `X.and_then(|v| B)` ->
+    `(match X { Ok(v) => B, Err(e__) => Err(e__) })` (std's definitions of the Result combinators) where the closure body B calls a
+    function that takes the world token: Verus cannot pass the `&mut` ghost token into a closure, and without the rewrite the effects of B
+    would be invisible.  Other closures are left alone."""
+    n = 0
+    while True:
+        st = rtok.sig(rtok.lex(text))
+        hit = None
+        for i in range(1, len(st) - 6):
+            if st[i][1] == '.' and st[i + 1][1] in ('or_else', 'and_then') and st[i + 2][1] == '(' and st[i + 3][1] == '|' \
+                    and (st[i + 4][0] == 'ident' or st[i + 4][1] == '_') and st[i + 5][1] == '|':
+                close = rtok.match_close(st, i + 2)
+                if any(st[k][0] == 'ident' and st[k + 1][1] == '(' and
+                       (call_key(st, k) in eff or ('*::' + st[k][1]) in eff) for k in range(i + 6, close - 1)):
+                    hit = (i, close)
+                    break
+        if hit is None:
+            break
+        i, close = hit
+        xs = _stmt_start(st, i)
+        v = st[i + 4][1]
+        if v == '_':
+            v = '_e'
+        if st[i + 1][1] == 'or_else':
+            spans = [(st[xs][2], st[xs][2], '(match '), (st[i][2], st[i + 5][3], ' { Ok(v__) => Ok(v__), Err(%s) =>' % v), (st[close][2], st[close][3], ' })')]
+        else:
+            spans = [(st[xs][2], st[xs][2], '(match '), (st[i][2], st[i + 5][3], ' { Ok(%s) =>' % v), (st[close][2], st[close][3], ', Err(e__) => Err(e__) })')]
+        text = _replace_spans(text, spans)
+        n += 1
+    if n:
+        log.append('R26 %d Result combinator(s) whose closure has effects -> match (std definition)' % n)
+    return text
+
+
 def rw_std_prefix(text, log):
     """R24 (automatic): a fully qualified `std::fs::f(..)` / `std::io::..` / `std::cmp::..` / `std::thread::..` names the same item as the
     `fs::f` the file imports; the stand-ins live in modules of those names, so the `std::` prefix is dropped."""
@@ -1153,7 +1215,9 @@ def build_fn(fs, repo, effectful, table_keys, canary=False):
             raise specmod.SpecError('%s: unknown rewrite %s' % (origin, kind))
 
     text = rw_drop_inner_use(text, log)
+    text = rw_result_combinators(text, (set(effectful) | set(table_keys) | set(fs.extra_effectful)) - set(fs.not_effectful), log)
     text = rw_closure_underscore(text, log)
+    text = rw_matches(text, log)
     text = rw_no_panic(text, log)
     text = rw_std_prefix(text, log)
     text = rw_loop_break_head(text, log)
@@ -1360,6 +1424,11 @@ def build_fn(fs, repo, effectful, table_keys, canary=False):
                 raise AnchorLost('anchor `%s` found 0 times' % insr.anchor)
             for a in hits:
                 sa, sb = stmt_bounds(st, a, a + len(want) - 1, body_open + 1, body_close)
+                if st[sb][1] not in (';', '}'):
+                    # the anchor begins a tail expression (value of a block or closure): nothing can follow it, and a step placed before it
+                    # has no partner; the step is left out here (it is a proof step, the postconditions still judge this path)
+                    log.append('[each] proof step not placed at a tail expression beginning with `%s`' % insr.anchor)
+                    continue
                 if insr.where == 'before':
                     add(st[sa][2], txt + ' ', ('ob', insr.oid))
                 else:
